@@ -1,7 +1,14 @@
 (* C19 - the oracle (Oracle/C19Oracle.v) accepts the model's own observations on the whole domain. *)
 From Coq Require Import Permutation.
-Require Import V.Base.MachineInt V.Model.UriTypes V.Generated.GenUriTables V.Model.UriSpec V.Model.Uri V.Model.UriBuilder
-               V.Oracle.C19Oracle V.Proofs.UriProofs V.Proofs.UriBuilderProofs.
+Require Import V.Base.MachineInt.
+Require Import V.Model.UriTypes.
+Require Import V.Generated.GenUriTables.
+Require Import V.Model.UriSpec.
+Require Import V.Model.Uri.
+Require Import V.Model.UriBuilder.
+Require Import V.Oracle.C19Oracle.
+Require Import V.Proofs.UriProofs.
+Require Import V.Proofs.UriBuilderProofs.
 Open Scope Z_scope.
 
 (* ---- sorting is a permutation; permuted maps are equivalent ------------------------------------------- *)
